@@ -7,7 +7,7 @@ import ast
 from ..cfg import build_cfg, calls_in, node_calls
 from ..core import Ctx, property_info, rule
 from ..model import AnalysisError, FuncInfo, walk_no_nested
-from ..q import A, MUTATORS, asrc, call_name_of, return_values, is_self_attr, kwarg, root_name, stores, unparse
+from ..q import A, MUTATORS, asrc, call_name_of, control_deps, none_cond, raw_forms, return_values, is_self_attr, kwarg, root_name, stores, unparse
 
 PAR = "xsdata.formats.dataclass.parsers"
 
@@ -53,12 +53,12 @@ def flag_governed_failure(ctx: Ctx) -> None:
     g = build_cfg(fi.node)
     tests = _flag_tests(g, "fail_on_unknown_properties")
     raises = [r for r in _raises(g) if "Unknown property" in unparse(r.ast)]
-    none_t = [t for t in g.nodes if t.kind == "test" and A("_ is None") == A(asrc_expr(fi, t.ast))]
-    ok = len(tests) == 1 and len(raises) == 1 and g.only_if(raises[0].id, tests[0].id, True) and bool(none_t) and any(g.only_if(raises[0].id, t.id, True) for t in none_t)
+    ok = len(tests) == 1 and len(raises) == 1 and g.only_if(raises[0].id, tests[0].id, True) and none_cond(control_deps(fi, raises[0]))
     ctx.ob("DictDecoder.bind_dataclass: 'Unknown property' raised only if the key matched no field and fail_on_unknown_properties", ok, at=fi, construct="unknown key raise", msg="raise not governed by the flag")
-    conts = [n for n in g.stmts() if isinstance(n.ast, ast.Continue)]
-    ok2 = bool(tests) and any(c.id in [m for m, lab in g.succ[tests[0].id] if lab == "false"] for c in conts)
-    ctx.ob("DictDecoder.bind_dataclass: with the flag off an unknown key is skipped (continue) before any binding", ok2, at=fi, construct="unknown key skip", msg="unknown keys are bound or fail with the flag off")
+    binds = [n for n in g.stmts() if any(call_name_of(c) == "bind_value" for c in node_calls(n))]
+    ok2 = bool(tests) and bool(binds) and all(none_cond(control_deps(fi, b), want_none=False) for b in binds) and not any(
+        isinstance(g.nodes[m].ast, ast.Raise) for m, lab in g.succ[tests[0].id] if lab == "false")
+    ctx.ob("DictDecoder.bind_dataclass: with the flag off an unknown key is skipped: binding happens only for keys that matched a field", ok2, at=fi, construct="unknown key skip", msg="unknown keys are bound or fail with the flag off")
     # (3) unknown attribute
     fi = ctx.repo.func(f"{PAR}.nodes.element:ElementNode.bind_attrs")
     g = build_cfg(fi.node)
@@ -100,9 +100,9 @@ def xsi_exemption(ctx: Ctx) -> None:
     fi = ctx.repo.func(f"{PAR}.nodes.element:ElementNode.bind_attrs")
     g = build_cfg(fi.node)
     raises = [r for r in _raises(g) if "Unknown attribute" in unparse(r.ast)]
-    tests = [t for t in g.nodes if t.kind == "test" and isinstance(t.ast, ast.Compare) and isinstance(t.ast.ops[0], ast.NotEq)
-             and "target_uri(" in unparse(t.ast.left) and unparse(t.ast.comparators[0]) == "Namespace.XSI.uri"]
-    ok = len(raises) == 1 and len(tests) == 1 and g.only_if(raises[0].id, tests[0].id, True)
+    tests = [t for t in g.nodes if t.kind == "test" and isinstance(t.ast, ast.Compare) and len(t.ast.ops) == 1 and isinstance(t.ast.ops[0], (ast.NotEq, ast.Eq))
+             and any("target_uri(" in f for f in raw_forms(fi, t, t.ast)) and "Namespace.XSI.uri" in unparse(t.ast)]
+    ok = len(raises) == 1 and len(tests) >= 1 and any(g.only_if(raises[0].id, t.id, isinstance(t.ast.ops[0], ast.NotEq)) for t in tests)
     ctx.ob("bind_attrs: unknown-attribute failure requires target_uri(qname) != Namespace.XSI.uri", ok, at=fi, construct="xsi exemption", msg="xsi:* attributes fail under fail_on_unknown_attributes")
     if tests:
         arg = tests[0].ast.left.args[0] if isinstance(tests[0].ast.left, ast.Call) and tests[0].ast.left.args else None
@@ -159,21 +159,22 @@ def value_kept_as_given(ctx: Ctx) -> None:
     """On the ConverterError path parse_var returns its value argument unchanged."""
     fi = ctx.repo.func(f"{PAR}.utils:ParserUtils.parse_var")
     g = build_cfg(fi.node)
-    rets = g.returns()
-    ok = len(rets) == 1 and unparse(rets[0].ast.value) == "value"
-    ctx.ob("parse_var returns the variable `value`", ok, at=fi, construct="returns value", msg="returns something else")
-    sts = [(st, tgt, v) for st, tgt, v in stores(fi.node) if isinstance(tgt, ast.Name) and tgt.id == "value"]
-    in_try_body = []
-    for t in walk_no_nested(fi.node):
-        if isinstance(t, ast.Try):
-            for st in t.body:
-                in_try_body += [x for x in [st, *walk_no_nested(st)]]
-    ok = len(sts) == 1 and any(sts[0][0] is x for x in in_try_body) and isinstance(sts[0][2], ast.Call) and unparse(sts[0][2].func) == "cls.parse_value"
-    ctx.ob("the only assignment to `value` is the conversion result inside the try body (so the except path keeps the argument)", ok, at=fi, construct="single assignment",
-           msg=f"`value` is assigned at {[s[0].lineno for s in sts]}: the unconverted text is not what is kept on failure")
-    hs = [h for t in walk_no_nested(fi.node) if isinstance(t, ast.Try) for h in t.handlers]
-    ok = len(hs) == 1 and unparse(hs[0].type) == "ConverterError" and not any(isinstance(x, ast.Return) for s in hs[0].body for x in [s, *walk_no_nested(s)])
-    ctx.ob("the handler catches ConverterError only and does not return a substitute", ok, at=fi, construct="handler shape", msg="handler changed")
+    hs = [n for n in g.nodes if n.kind == "except"]
+    conv = [h for h in hs if h.ast is not None and h.ast.type is not None and unparse(h.ast.type) == "ConverterError"]
+    ctx.ob("parse_var handles ConverterError (and nothing broader) around the conversion", len(hs) == 1 and len(conv) == 1, at=fi, construct="handler shape", msg="handler changed")
+    after = g.reachable([h.id for h in conv]) if conv else set()
+    rets_after = [r for r in g.returns() if r.id in after]
+    ok = bool(rets_after) and all(isinstance(r.ast.value, ast.Name) and r.ast.value.id == "value" for r in rets_after)
+    ctx.ob("on the ConverterError path parse_var returns the variable `value`", ok, at=fi, construct="returns value", msg="returns something else")
+    # ... and `value` still is the argument there: it is never assigned between the handler and those returns, and elsewhere only by the
+    # conversion inside the guarded body (whose assignment does not happen when the conversion raises)
+    defs = [g.node_of(st) for st, tgt, v in stores(fi.node) if isinstance(tgt, ast.Name) and tgt.id == "value"]
+    defs = [d for d in defs if d is not None]
+    handler_ids = {h.id for h in conv}
+    in_body = lambda d: any(m in handler_ids and lab == "exc" for m, lab in g.succ[d.id])  # noqa: E731
+    ok = all(d.id not in after or in_body(d) for d in defs) and all(in_body(d) and isinstance(d.ast, (ast.Assign, ast.AnnAssign)) and isinstance(d.ast.value, ast.Call) and call_name_of(d.ast.value) == "parse_value" for d in defs)
+    ctx.ob("`value` is only ever assigned by the conversion inside the guarded body (so the except path keeps the argument)", ok, at=fi, construct="single assignment",
+           msg="`value` is reassigned outside the guarded conversion: the unconverted text is not what is kept on failure")
 
 
 @rule("C10.R5")
